@@ -217,7 +217,14 @@ func (g *G) inline(k int) string {
 				parts = append(parts, `<a href="javascript:go(`+fmt.Sprint(g.n)+`)">`+"<b>"+g.words(m)+"</b> "+g.words(max(1, n-m))+"</a>")
 				n = m + max(1, n-m)
 			case 1:
-				parts = append(parts, `<a href="javascript:void(0)">`+g.words(m)+" <b>"+g.words(max(1, n-m))+"</b> "+g.words(1)+"</a>")
+				hid := ""
+				if g.P.Carriers > 0 && g.intn(0, 2, "ajshid") == 0 {
+					// a hidden element inside the script link
+					g.push("ha")
+					hid = " " + g.hiddenOpen("span") + g.words(2) + "</span>"
+					g.pop()
+				}
+				parts = append(parts, `<a href="javascript:void(0)">`+g.words(m)+" <b>"+g.words(max(1, n-m))+"</b>"+hid+" "+g.words(1)+"</a>")
 				n = m + max(1, n-m) + 1
 			default:
 				parts = append(parts, `<a href="javascript:;">`+g.words(m)+"<br>"+g.words(max(1, n-m))+"</a>")
@@ -274,6 +281,9 @@ func (g *G) inline(k int) string {
 				g.pop()
 			}
 			n = 2
+		case "litword":
+			// words that are also tag names, as the whole text of an inline element
+			parts = append(parts, g.words(max(1, n-1))+" <"+"code>"+g.pick("litw", "br", "style", "script", "hr", "noscript")+"</code>")
 		case "brlast":
 			// a line break as the last child of an inline element, text going on after it
 			m := g.intn(1, max(1, n-1), "brlastw")
@@ -535,6 +545,10 @@ func (g *G) maybeCarrier(label string) string {
 	}
 	if g.P.ForeignRawText && g.chance(6, label+"fp") {
 		// an element of the page with the distiller's own marker class, inside content that is copied as a whole
+		if g.intn(0, 2, "fpnoscript") == 0 {
+			// the same markup as the raw text of a <noscript>
+			return ` <noscript><div class="embed-placeholder" data-type="youtube" data-id="` + g.tokp("fg") + `"></div></noscript> `
+		}
 		return ` <div class="embed-placeholder" data-type="youtube" data-id="` + g.tokp("fg") + `">` + g.words(2) + "</div> "
 	}
 	if g.P.Carriers > 0 && g.chance(g.P.Carriers, label) {
@@ -560,6 +574,10 @@ func (g *G) cell() string {
 		if g.intn(0, 3, "cellmap") == 0 {
 			m := g.tokp("map")
 			return `<img src="` + g.url("img") + `" usemap="#` + m + `"><map name="` + m + `"><area shape="rect" coords="0,0,5,5" href="` + g.url("a") + `" alt="` + g.tokp("alt") + `"></map>` + g.words(1)
+		}
+		if g.intn(0, 3, "celllinked") == 0 {
+			// a linked thumbnail
+			return `<a href="` + g.url("a") + `"><img src="` + g.url("img") + `" srcset="` + g.srcset("srcset") + `"></a>` + g.words(1)
 		}
 		if g.intn(0, 2, "cellss") == 0 {
 			return `<img srcset="` + g.srcset("srcset") + `" src="` + g.url("img") + `"` + g.at("img") + ">" + g.words(1)
@@ -790,7 +808,7 @@ func (g *G) otherFrame() string {
 // hiddenOpen returns an opening tag that hides its subtree (class A) by one of the mechanisms
 // C04 names, in one of the spellings the implementation documents.
 func (g *G) hiddenOpen(tag string) string {
-	mech := g.pick("hid", ` hidden`, ` hidden=""`, ` hidden="hidden"`, ` style="display:none"`, ` style="display: none"`,
+	mech := g.pick("hid", ` hidden`, ` hidden=""`, ` hidden="hidden"`, ` hidden="until-found"`, ` hidden="true"`, ` hidden="false"`, ` hidden="1"`, ` style="display:none"`, ` style="display: none"`,
 		` style="DISPLAY:NONE;"`, ` style="color:red;display:none"`, ` style="display:none;color:red"`,
 		` style="visibility:hidden"`, ` style="visibility: collapse"`, ` style="margin:0;visibility:hidden;"`, ` aria-hidden="true"`,
 		// the same declarations in other spellings CSS allows
@@ -991,6 +1009,18 @@ func (g *G) block(kind string) string {
 			return "<div><p>" + sp + "</p>" + g.pick("uspm", strings.TrimSpace(g.img()), strings.TrimSpace(g.video()), strings.TrimSpace(g.youtube()), g.dataTable()) + "</div>\n"
 		}
 		return "<p>" + sp + "</p>\n"
+	case "bylinemedia":
+		// media that carries a by-line marker but no text (an author portrait)
+		switch g.pick("blmk", "img", "alink", "video", "div") {
+		case "img":
+			return `<img class="author-portrait" src="` + g.url("img") + `" width="640" height="400">` + "\n"
+		case "alink":
+			return `<a rel="author" href="` + g.url("a") + `"><img src="` + g.url("img") + `" width="640" height="400"></a>` + "\n"
+		case "video":
+			return `<video id="dateline-clip" src="` + g.url("video") + `" controls></video>` + "\n"
+		default:
+			return `<div class="writtenby">` + strings.TrimSpace(g.youtube()) + "</div>\n"
+		}
 	case "jsmedia":
 		// media as the only child of a javascript: link (lightbox, gallery)
 		return `<a href="javascript:` + g.pick("jsmk", "void(0)", "openLightbox()", ";") + `">` + g.pick("jsmm", strings.TrimSpace(g.img()), strings.TrimSpace(g.figure()), strings.TrimSpace(g.video())) + "</a>\n"
